@@ -7,7 +7,9 @@ shared `Ledger`); a *history* is any `List Op`, executed by `run` from `init cfg
 configuration `cfg`; every theorem below quantifies over all configurations, all histories
 and all addresses / denoms / proposal ids.
 
-* sanction rule: `isSanctioned_spec`, `isSanctioned_spec_reachable`, `checker_rule_iff`
+* sanction rule: `isSanctioned_spec`, `isSanctioned_spec_reachable`, `checker_rule_iff`,
+  `passed_messages_take_effect`, `immediate_entries_take_effect`,
+  `status_changes_only_by_governance`
 * protected accounts: `unsanctionable_never_sanctioned`
 * temporary entries follow the proposal: `temp_entries_live_or_cancelled`,
   `no_temp_after_passed_rejected_failed`, `no_temp_after_expired`, `index_mirrors_temp`
@@ -200,6 +202,68 @@ theorem immediate_entries_take_effect (c : Cfg) (st st' : Store) (v : Bool) (id 
   simp only [h0, if_false, this]
   cases v <;> rfl
 
+/-- the operations through which governance acts on the sanction store -/
+def isGovStep : Op → Bool
+  | .submit .. | .deposit .. | .block _ | .params .. | .msg _ => true
+  | _ => false
+
+/-- Sanction status follows governance only: no fund movement, vote or cancellation ever
+changes the sanction store, hence nobody's sanction status. -/
+theorem status_changes_only_by_governance (s : State) (op : Op) (h : isGovStep op = false) :
+    (step s op).st = s.st ∧ ∀ a, isSanctionedAddr (step s op).cfg (step s op).st a = isSanctionedAddr s.cfg s.st a := by
+  have key : (step s op).st = s.st ∧ (step s op).cfg = s.cfg := by
+    unfold step
+    cases hs : applyOp s op with
+    | error e => exact ⟨rfl, rfl⟩
+    | ok s' =>
+      cases op with
+      | submit who msgs initial exp => simp [isGovStep] at h
+      | deposit who id amt => simp [isGovStep] at h
+      | block dt => simp [isGovStep] at h
+      | params a b => simp [isGovStep] at h
+      | msg m => simp [isGovStep] at h
+      | vote id v =>
+        simp only [applyOp, addVote] at hs
+        cases hg : getProp s.props id with
+        | none => simp [hg] at hs
+        | some p =>
+          simp only [hg] at hs
+          split_ifs at hs
+          simp only [Except.ok.injEq] at hs
+          subst hs
+          exact ⟨rfl, rfl⟩
+      | cancel who id =>
+        obtain ⟨p, l, _, _, rfl⟩ := cancelProposal_ok hs
+        exact ⟨rfl, rfl⟩
+      | send f t amt =>
+        simp only [applyOp] at hs
+        split_ifs at hs
+        obtain ⟨rfl, _⟩ := sendCoins_ok hs
+        exact ⟨rfl, rfl⟩
+      | msend f ts amt =>
+        simp only [applyOp, inputOutputCoins] at hs
+        split_ifs at hs
+        simp only [Except.ok.injEq] at hs
+        subst hs
+        exact ⟨rfl, rfl⟩
+      | delegate who amt =>
+        simp only [applyOp, delegateCoins] at hs
+        split_ifs at hs
+        simp only [Except.ok.injEq] at hs
+        subst hs
+        exact ⟨rfl, rfl⟩
+      | tomod who amt =>
+        simp only [applyOp] at hs
+        split_ifs at hs
+        obtain ⟨rfl, _⟩ := sendCoins_ok hs
+        exact ⟨rfl, rfl⟩
+      | fund who amt =>
+        simp only [applyOp] at hs
+        split_ifs at hs
+        simp only [Except.ok.injEq] at hs
+        subst hs
+        exact ⟨rfl, rfl⟩
+  exact ⟨key.1, fun a => by rw [key.1, key.2]⟩
 /-! ### 2. protected accounts -/
 
 /-- In every reachable state an unsanctionable (protected module) account is not sanctioned,
